@@ -216,12 +216,21 @@ def gen_file(rng: random.Random):
         # decorators that are not rattr annotations (not even nameable ones), above / between / below the annotations
         for _ in range(rng.choice([0, 0, 1, 1, 2])):
             decos.insert(rng.randint(0, len(decos)), rng.choice(OTHER_DECORATORS))
+        # some definitions sit inside a module-level compound statement (conditionally defined callables)
+        wrap = rng.choice([None, None, None, "if FLAG:", "try:", "with GUARD:", "for _i in (1,):"]) if kind != "lambda" else None
+
+        def block(ls):
+            if wrap is None:
+                return ls
+            body = ["    " + l if l else l for l in ls if l != ""]
+            tail = ["except ImportError:", "    pass"] if wrap == "try:" else []
+            return [wrap] + body + tail + [""]
         if kind == "func":
-            lines += decos + [f"def {name}(p, q=None):", f"    return p.body_of_{name}", ""]
+            lines += block(decos + [f"def {name}(p, q=None):", f"    return p.body_of_{name}", ""])
             defs.append((name, "DFunc", ignore, results))
         elif kind == "class":
-            lines += decos + [f"class {name}:", "    def __init__(self, p):", f"        self.held = p.body_of_{name}", "", "    @staticmethod",
-                              f"    def sm_{tag}(v):", f"        return v.static_of_{name}", ""]
+            lines += block(decos + [f"class {name}:", "    def __init__(self, p):", f"        self.held = p.body_of_{name}", "    @staticmethod",
+                                    f"    def sm_{tag}(v):", f"        return v.static_of_{name}", ""])
             defs.append((name, "DClass", ignore, results))
             defs.append((f"{name}.sm_{tag}", f"(DStatic {C.cstr(name)})", ignore, None))
         else:
